@@ -324,6 +324,23 @@ def classify_one(prop, spec, k, m, ev):
             return "bounds-unbounded-int-range"
         if _f8(k, m, ev):
             return "swizzle-pins-low-bits-only"
+    if prop == "C20":
+        if k == "earlier-variable-value-starved" and _f8("feasible-value-starved", m, ev):
+            return "swizzle-pins-low-bits-only"
+        if k == "marginal-not-uniform" and isinstance(ev, dict) and ev.get("ranges") and len(ev["ranges"]) >= 2:
+            return "multi-range-domain-not-uniform"
+        if k == "marginal-depends-on-later-variable" and isinstance(ev, dict) and ev.get("ranges"):
+            # the drawn target only pins the low bits / picks a range first: which of the aliasing values the solver
+            # returns then depends on the rest of the formula, i.e. on the coupling with the later variable
+            rl, w = ev["ranges"], ev.get("width", 0)
+            if len(rl) >= 2 or any(max(abs(lo), abs(hi)).bit_length() < w for lo, hi in rl):
+                feas = ev.get("feasible", [])
+                for lo, hi in rl:
+                    d = max(abs(lo), abs(hi)).bit_length()
+                    if any(u != v and (u - v) % (1 << d) == 0 for u in feas for v in feas if lo <= v <= hi):
+                        return "swizzle-pins-low-bits-only"
+                if len(rl) >= 2:
+                    return "multi-range-domain-not-uniform"
     # ---- dynamic constraints (F10)
     if prop == "C06" and isinstance(ev, dict) and "op" in ev and dynref_with_later_instance(spec, ev):
         return "dynamic-ref-binds-last-constructed-instance"
